@@ -83,6 +83,9 @@ PPL = {
 PPL_GRID = [PPL.get((f, t), ('ppl', 8.25 + f, 70.0 - t, -0.75 * (t + 1),
                              float(f) - 45.5, 0.5 * t, f, t))
             for f in (0x00, 0x1F, 0x08) for t in (0, 127, 128)]
+# teleport ids whose wire VarInt has bit 31 set (the id is a signed int)
+PPL_GRID += [('ppl', 3.5, 65.0, 4.5, 1.5, 2.5, 0x00, 2 ** 31),
+             ('ppl', 3.5, 65.0, 4.5, 1.5, 2.5, 0x1F, 2 ** 32 - 1)]
 U1 = ('raw', 0x7D, b'\x01\x02\x03\xff')
 UM = ('raw', 0x1234, b'\x02\x00\x00')           # looks like a frame 02 00 00
 U0 = ('raw', 0x7F, b'')
@@ -517,6 +520,12 @@ def ka_ids(long_layout, seed):
     ids = [0, 1, 127, 128, 2 ** 31 - 1]
     if long_layout:
         ids += [2 ** 31, 2 ** 63 - 1, -1, -2 ** 63]
+    else:
+        # VarInt layouts: a real server sends a signed 32-bit id; negative
+        # ones are 5-byte VarInts with bit 31 set on the wire.  The reference
+        # server encodes them two's-complement and decodes the reply signed,
+        # so "same id" is judged on the wire value.
+        ids += [-1, -2 ** 31]
     s = seed_id(seed, long_layout)
     if s not in ids:
         ids.append(s)
